@@ -266,9 +266,13 @@ func c30Phase1(t *testing.T, r *kit.Run, cases int) {
 		return binary.BigEndian.Uint64(vals[0])
 	}
 	for c := 0; c < cases; c++ {
-		ai := rng.IntN(5)
-		if rng.IntN(100) < 6 {
-			ai = 5 + rng.IntN(2)
+		// mostly an actor that currently owns funds (only those can transact),
+		// sometimes any of the seven (empty accounts included)
+		ai := rng.IntN(nActors)
+		if rng.IntN(100) >= 6 {
+			for try := 0; try < 8 && balance(addrs[ai]) == 0; try++ {
+				ai = rng.IntN(nActors)
+			}
 		}
 		actor := addrs[ai]
 		bal := balance(actor)
@@ -633,8 +637,8 @@ func TestC30(t *testing.T) {
 	)
 	// Replay: the state of a case depends on all earlier cases, so a replay file
 	// re-runs the whole (seeded, deterministic) sequence of its tier and seed.
-	c30Phase1(t, r, r.N(1500, 40000))
-	c30Phase2(t, r, r.N(600, 15000))
+	c30Phase1(t, r, r.N(1500, 25000))
+	c30Phase2(t, r, r.N(600, 10000))
 	if r.Replay() != nil {
 		r.Finish(0)
 		return
